@@ -708,6 +708,58 @@ theorem gridPoints_length (axes : List (Axis K)) : ∀ p ∈ gridPoints axes, p.
     (forall₂_map_of_mem Axis.nodes _ axes (fun _ _ _ _ => trivial)) p hp
   exact this.length_eq.symm
 
+/-- The stride of `uniform_discr(lo, hi, n, nodes_on_bdry=(bl, br))`: the interval holds `n - 1`
+strides between the extreme nodes plus half a stride at every end without a boundary node. -/
+def bdryStride (bl br : Bool) (lo hi : K) (n : Nat) : K :=
+  (hi - lo) / ((n : K) - 1 + (if bl then 0 else 1 / 2) + (if br then 0 else 1 / 2))
+
+theorem uniformNodeBdry_eq (bl br : Bool) (lo hi : K) (n i : Nat) (hn : 2 ≤ n) (_hi' : i < n) :
+    uniformNodeBdry bl br lo hi n i =
+      lo + ((i : K) + (if bl then 0 else 1 / 2)) * bdryStride bl br lo hi n := by
+  have hnK : (2 : K) ≤ (n : K) := by exact_mod_cast hn
+  have h1 : (n : K) - 1 ≠ 0 := by intro h; linarith
+  have h2 : 2 * (n : K) - 1 ≠ 0 := by intro h; linarith
+  have h3 : (n : K) ≠ 0 := by intro h; linarith
+  have h4 : (n : K) - 1 + 1 / 2 ≠ 0 := by intro h; linarith
+  have h5 : (n : K) - 1 + 1 / 2 + 1 / 2 ≠ 0 := by intro h; linarith
+  have hff : (n : K) - 1 + 1 / 2 + 1 / 2 = (n : K) := by ring
+  have hft : (n : K) - 1 + 1 / 2 + 0 = (2 * (n : K) - 1) / 2 := by ring
+  have htf : (n : K) - 1 + 0 + 1 / 2 = (2 * (n : K) - 1) / 2 := by ring
+  have htt : (n : K) - 1 + 0 + 0 = (n : K) - 1 := by ring
+  unfold uniformNodeBdry bdryStride
+  by_cases hl : i + 1 = n ∧ 1 < n
+  · have hiK : (i : K) = (n : K) - 1 := by
+      have : (i : K) + 1 = (n : K) := by exact_mod_cast hl.1
+      linarith
+    simp only [hl, and_self, if_true, hiK]
+    have h6 : (2 * (n : K) - 1) / 2 ≠ 0 := div_ne_zero h2 two_ne_zero
+    have h7 : ((2 * (n : K) - 1) / 2) * ((hi - lo) / ((2 * (n : K) - 1) / 2)) = hi - lo := by
+      field_simp
+    cases bl <;> cases br <;>
+      simp only [Bool.false_eq_true, if_false, if_true, hff, hft, htf, htt] <;>
+      first
+        | (field_simp <;> ring1)
+        | linear_combination (-1 : K) * h7
+  · simp only [hl, if_false]
+    cases bl <;> cases br <;>
+      simp only [Bool.false_eq_true, if_false, if_true, hff, hft, htf, htt] <;>
+      field_simp <;> ring
+
+theorem uniformAxisBdry_good (bl br : Bool) (lo hi : K) (n : Nat) (s : Scheme) (h : lo < hi)
+    (hn : 2 ≤ n) : (uniformAxisBdry bl br lo hi n s).Good := by
+  refine ⟨hn, ?_⟩
+  intro i j hij hj
+  have hj : j < n := hj
+  show uniformNodeBdry bl br lo hi n i < uniformNodeBdry bl br lo hi n j
+  rw [uniformNodeBdry_eq bl br lo hi n i hn (by omega), uniformNodeBdry_eq bl br lo hi n j hn hj]
+  have hnK : (2 : K) ≤ (n : K) := by exact_mod_cast hn
+  have hpos : 0 < bdryStride bl br lo hi n := by
+    unfold bdryStride
+    apply div_pos (by linarith)
+    cases bl <;> cases br <;> simp <;> linarith
+  have : (i : K) < (j : K) := by exact_mod_cast hij
+  nlinarith
+
 end
 
 end OdlModel.Interp
